@@ -1,7 +1,7 @@
 #!/bin/bash
 # tools/seed_matrix.sh  -- run every seeded change (and own mutant) against the check of its property; writes seeded/RESULTS.txt
-cd /verif
-out=seeded/RESULTS.txt
+cd "${VERIF_ROOT:-/verif}"
+out=${MATRIX_OUT:-seeded/RESULTS.txt}
 : > $out
 for d in seeded/C*/; do
   id=$(basename $d)
